@@ -21,7 +21,7 @@ func (propC20) ID() string { return "C20" }
 const c20Handles = 4
 const c20Slices = 2
 
-var c20Hosts = []string{"int", "int32", "uint", "uint32", "int64", "float32", "float64", "bool", "string", "time", "duration", "array", "variant", "nil", "struct", "slice", "map"}
+var c20Hosts = []string{"int", "int32", "uint", "uint32", "int64", "float32", "float64", "bool", "string", "time", "duration", "array", "variant", "nil", "struct", "slice", "map", "goarray", "structslice", "ptr"}
 
 type c20Struct struct{ A int }
 
@@ -64,7 +64,13 @@ func (propC20) Gen(r *Rand) *Plan {
 	var ops []Op
 	h := func() int { return r.Intn(c20Handles) }
 	for i := 0; i < nops; i++ {
-		switch r.Weighted([]int{8, 5, 3, 4, 4, 6, 2, 3, 5, 1, 4, 3}) {
+		switch r.Weighted([]int{8, 5, 3, 4, 4, 6, 2, 3, 5, 1, 4, 3, 4, 1}) {
+		case 12: // change an element object in place, through the variant
+			v := c20Scalar(r)
+			ops = append(ops, Op{Op: "mutelem", H: h(), I: r.PickInt([]int{0, 0, 1, 2, 3, 4, 8}), V: &v})
+		case 13: // deeply nested array
+			v := c20Scalar(r)
+			ops = append(ops, Op{Op: "nest", H: h(), I: r.PickInt([]int{1, 2, 3, 12, 63, 64, 65, 70, 130}), V: &v})
 		case 0: // construct from a host value
 			host := r.Pick(c20Hosts)
 			o := Op{Op: "new", H: h(), S: host, H2: h(), J: r.Intn(c20Slices), I: r.Intn(2)}
@@ -111,6 +117,9 @@ type c20Model struct {
 	// physically share a list (Assign, construction from a variant); classes
 	// outlive the handles that created them
 	cls int
+	// identity of the element objects of a known list (-1: a slot whose object was changed in
+	// place through another holder - a shallow or a deep copy are both fine, so nothing is asserted)
+	ids []int
 }
 
 func (propC20) Exec(p *Plan, x *Ctx) *Outcome {
@@ -130,6 +139,34 @@ func (propC20) Exec(p *Plan, x *Ctx) *Outcome {
 		}
 		nextCls := 0
 		newCls := func() int { nextCls++; return nextCls }
+		// element objects: every element the harness creates, and every null the library pads
+		// with, is an object of its own
+		elem := map[int]Val{}
+		nextID := 0
+		newIDs := func(vs []Val) []int {
+			ids := make([]int, len(vs))
+			for i := range vs {
+				nextID++
+				ids[i] = nextID
+				elem[nextID] = vs[i]
+			}
+			return ids
+		}
+		sliceIDs := make([][]int, c20Slices)
+		// refresh recomputes the expected element values of every known list from the objects
+		refresh := func() {
+			for _, m := range ms {
+				if m.v.T == "Array" && m.known && len(m.ids) == len(m.v.A) {
+					a := append([]Val{}, m.v.A...)
+					for j, id := range m.ids {
+						if id > 0 {
+							a[j] = elem[id]
+						}
+					}
+					m.v = Val{T: "Array", A: a}
+				}
+			}
+		}
 		// clsEdges[a][b]: an in-place mutation of a list of class a may legitimately
 		// show through handles of class b (original -> clone: not asserted either way)
 		clsEdges := map[int]map[int]bool{}
@@ -171,8 +208,10 @@ func (propC20) Exec(p *Plan, x *Ctx) *Outcome {
 			ms[h].v = v
 			ms[h].known = true
 			ms[h].cls = -1
+			ms[h].ids = nil
 			if v.T == "Array" {
 				ms[h].cls = newCls()
+				ms[h].ids = newIDs(v.A) // replaced by the right objects where the list was built from existing ones
 			}
 		}
 		fill := func(vs []Val) []*variants.Variant {
@@ -189,6 +228,7 @@ func (propC20) Exec(p *Plan, x *Ctx) *Outcome {
 			model Val
 			share int // handle whose payload may be shared (-1 none)
 			ok    bool
+			ids   []int // element objects when the value is a list built from existing objects
 		}
 		host := func(o Op) hostRes {
 			v := VNull()
@@ -201,63 +241,76 @@ func (propC20) Exec(p *Plan, x *Ctx) *Outcome {
 			}
 			switch o.S {
 			case "int":
-				return hostRes{int(i64), VInt(int(i64)), -1, true}
+				return hostRes{val: int(i64), model: VInt(int(i64)), share: -1, ok: true}
 			case "int32":
-				return hostRes{int32(i64), VInt(int(int32(i64))), -1, true}
+				return hostRes{val: int32(i64), model: VInt(int(int32(i64))), share: -1, ok: true}
 			case "uint":
 				u := uint(uint64(i64) & 0x7fffffffffffffff)
-				return hostRes{u, VLong(int64(u)), -1, true}
+				return hostRes{val: u, model: VLong(int64(u)), share: -1, ok: true}
 			case "uint32":
-				return hostRes{uint32(i64), VLong(int64(uint32(i64))), -1, true}
+				return hostRes{val: uint32(i64), model: VLong(int64(uint32(i64))), share: -1, ok: true}
 			case "int64":
-				return hostRes{i64, VLong(i64), -1, true}
+				return hostRes{val: i64, model: VLong(i64), share: -1, ok: true}
 			case "float32":
 				f := float32(i64) / 4
 				if v.T == "Float" {
 					f = v.Float32()
 				}
-				return hostRes{f, VFloat(f), -1, true}
+				return hostRes{val: f, model: VFloat(f), share: -1, ok: true}
 			case "float64":
 				f := float64(i64) / 8
 				if v.T == "Double" {
 					f = v.Float64()
 				}
-				return hostRes{f, VDouble(f), -1, true}
+				return hostRes{val: f, model: VDouble(f), share: -1, ok: true}
 			case "bool":
-				return hostRes{v.B || i64%2 == 1, VBool(v.B || i64%2 == 1), -1, true}
+				return hostRes{val: v.B || i64%2 == 1, model: VBool(v.B || i64%2 == 1), share: -1, ok: true}
 			case "string":
-				return hostRes{v.S, VStr(v.S), -1, true}
+				return hostRes{val: v.S, model: VStr(v.S), share: -1, ok: true}
 			case "time":
 				t := time.Unix(i64%4_000_000_000, 0).UTC()
 				if v.T == "DateTime" {
 					t = v.Time()
 				}
-				return hostRes{t, VTime(t), -1, true}
+				return hostRes{val: t, model: VTime(t), share: -1, ok: true}
 			case "duration":
-				return hostRes{time.Duration(i64), VSpan(time.Duration(i64)), -1, true}
+				return hostRes{val: time.Duration(i64), model: VSpan(time.Duration(i64)), share: -1, ok: true}
 			case "array":
 				if o.J < 0 || o.J >= c20Slices {
 					return hostRes{}
 				}
 				slices[o.J] = fill(o.Vs)
 				sliceModel[o.J] = append([]Val{}, o.Vs...)
-				return hostRes{slices[o.J], VArr(o.Vs...), -1, true}
+				sliceIDs[o.J] = newIDs(o.Vs)
+				return hostRes{slices[o.J], VArr(o.Vs...), -1, true, append([]int{}, sliceIDs[o.J]...)}
 			case "variant":
 				if !inRange(o.H2) || o.H2 == o.H {
 					return hostRes{}
 				}
-				return hostRes{hs[o.H2], ms[o.H2].v, o.H2, true}
+				return hostRes{hs[o.H2], ms[o.H2].v, o.H2, true, append([]int{}, ms[o.H2].ids...)}
 			case "nil":
-				return hostRes{nil, VNull(), -1, true}
+				return hostRes{val: nil, model: VNull(), share: -1, ok: true}
 			case "struct":
 				s := c20Struct{A: int(i64 % 100)}
-				return hostRes{s, Val{T: "Object", S: fmt.Sprintf("%T:%v", s, s)}, -1, true}
+				return hostRes{val: s, model: Val{T: "Object", S: fmt.Sprintf("%T:%v", s, s)}, share: -1, ok: true}
 			case "slice":
 				s := []int{int(i64 % 3), 7}
-				return hostRes{s, Val{T: "Object", S: fmt.Sprintf("%T:%v", s, s)}, -1, true}
+				return hostRes{val: s, model: Val{T: "Object", S: fmt.Sprintf("%T:%v", s, s)}, share: -1, ok: true}
 			case "map":
 				s := map[string]int{"k": int(i64 % 3)}
-				return hostRes{s, Val{T: "Object", S: fmt.Sprintf("%T:%v", s, s)}, -1, true}
+				return hostRes{val: s, model: Val{T: "Object", S: fmt.Sprintf("%T:%v", s, s)}, share: -1, ok: true}
+			case "goarray": // a fixed-size Go array with uncomparable elements
+				s := [2][]int{{int(i64 % 3)}, {7}}
+				return hostRes{val: s, model: Val{T: "Object", S: fmt.Sprintf("%T:%v", s, s)}, share: -1, ok: true}
+			case "structslice": // an uncomparable struct
+				s := struct {
+					A int
+					B []string
+				}{int(i64 % 3), []string{"x"}}
+				return hostRes{val: s, model: Val{T: "Object", S: fmt.Sprintf("%T:%v", s, s)}, share: -1, ok: true}
+			case "ptr":
+				s := &c20Struct{A: int(i64 % 3)}
+				return hostRes{val: s, model: Val{T: "Object", S: fmt.Sprintf("%T:%v", s, s)}, share: -1, ok: true}
 			}
 			return hostRes{}
 		}
@@ -268,6 +321,9 @@ func (propC20) Exec(p *Plan, x *Ctx) *Outcome {
 			}
 			setModel(h, r.model)
 			ms[h].known = srcKnown
+			if r.model.T == "Array" && len(r.ids) == len(r.model.A) {
+				ms[h].ids = r.ids // the list was built from existing element objects
+			}
 			if r.share >= 0 && r.share != h && r.model.T == "Array" {
 				// a variant built from another variant may share its list (not asserted either way)
 				ms[h].cls = ms[r.share].cls
@@ -291,6 +347,14 @@ func (propC20) Exec(p *Plan, x *Ctx) *Outcome {
 					}
 					continue
 				}
+				if want.T == "Array" && got.T == "Array" && len(got.A) == len(want.A) && len(m.ids) == len(want.A) {
+					// slots whose object was changed in place through another holder are not asserted
+					for j, id := range m.ids {
+						if id < 0 {
+							want.A[j] = got.A[j]
+						}
+					}
+				}
 				if !got.Equal(want) {
 					out.Violate("value-model", fmt.Sprintf("C20/state/%s/%s/%s", o.Op, role, want.T),
 						"after op %d (%s %s): handle %d holds %s, model says %s", i, o.Op, o.S, h, got, want)
@@ -302,6 +366,9 @@ func (propC20) Exec(p *Plan, x *Ctx) *Outcome {
 						return false
 					}
 					for j := range want.A {
+						if j < len(m.ids) && m.ids[j] < 0 {
+							continue
+						}
 						if e := FromVariant(hs[h].GetByIndex(j)); !e.Equal(want.A[j]) {
 							out.Violate("value-model", fmt.Sprintf("C20/getbyindex/%s", o.Op), "after op %d: handle %d [%d] = %s, model %s", i, h, j, e, want.A[j])
 							return false
@@ -404,8 +471,10 @@ func (propC20) Exec(p *Plan, x *Ctx) *Outcome {
 				}
 				slices[o.J] = fill(o.Vs)
 				sliceModel[o.J] = append([]Val{}, o.Vs...)
+				sliceIDs[o.J] = newIDs(o.Vs)
 				hs[o.H].SetAsArray(slices[o.J])
 				setModel(o.H, VArr(o.Vs...))
+				ms[o.H].ids = append([]int{}, sliceIDs[o.J]...)
 			case "mutslice":
 				if o.J < 0 || o.J >= c20Slices || o.V == nil || len(slices[o.J]) == 0 {
 					continue
@@ -415,6 +484,9 @@ func (propC20) Exec(p *Plan, x *Ctx) *Outcome {
 					k = -k
 				}
 				slices[o.J][k] = o.V.ToVariant() // the caller changes its own list
+				if k < len(sliceIDs[o.J]) {
+					sliceIDs[o.J][k] = newIDs([]Val{*o.V})[0]
+				}
 				out.Probes["caller_slice_mutated"]++
 				mutations++
 			case "setbyindex":
@@ -428,12 +500,19 @@ func (propC20) Exec(p *Plan, x *Ctx) *Outcome {
 					if o.I >= len(a) {
 						out.Probes["setbyindex_past_end"]++
 					}
+					ids := append([]int{}, ms[o.H].ids...)
+					for len(ids) < len(a) {
+						ids = append(ids, -1)
+					}
 					for len(a) <= o.I {
 						a = append(a, VNull())
+						ids = append(ids, newIDs([]Val{VNull()})[0]) // every padding null is an object of its own
 					}
 					a = append([]Val{}, a...)
 					a[o.I] = *o.V
+					ids[o.I] = newIDs([]Val{*o.V})[0]
 					ms[o.H].v = Val{T: "Array", A: a}
+					ms[o.H].ids = ids
 				}
 				if aliases(o.H) > 0 {
 					out.Probes["mutate_with_alias_edges"]++
@@ -446,10 +525,16 @@ func (propC20) Exec(p *Plan, x *Ctx) *Outcome {
 				hs[o.H].SetLength(o.I)
 				taint(o.H)
 				a := append([]Val{}, ms[o.H].v.A...)
+				ids := append([]int{}, ms[o.H].ids...)
+				for len(ids) < len(a) {
+					ids = append(ids, -1)
+				}
 				for len(a) < o.I {
 					a = append(a, VNull())
+					ids = append(ids, newIDs([]Val{VNull()})[0])
 				}
 				ms[o.H].v = Val{T: "Array", A: a}
+				ms[o.H].ids = ids
 				mutations++
 			case "assign":
 				if !inRange(o.H2) {
@@ -462,6 +547,7 @@ func (propC20) Exec(p *Plan, x *Ctx) *Outcome {
 					ms[o.H].known = src.known
 					if src.v.T == "Array" {
 						ms[o.H].cls = src.cls
+						ms[o.H].ids = append([]int{}, src.ids...)
 					}
 				}
 			case "assignnil":
@@ -477,6 +563,7 @@ func (propC20) Exec(p *Plan, x *Ctx) *Outcome {
 					hs[o.H] = c
 					setModel(o.H, src.v)
 					ms[o.H].known = src.known
+					ms[o.H].ids = append([]int{}, src.ids...) // a clone may hold the same element objects (shallow) or copies
 					// mutating the original is not promised to leave the clone alone;
 					// mutating the clone must leave the original alone
 					if src.v.T == "Array" {
@@ -493,6 +580,48 @@ func (propC20) Exec(p *Plan, x *Ctx) *Outcome {
 					if src.v.T == "Array" {
 						out.Probes["clone_of_array"]++
 					}
+				}
+			case "mutelem":
+				m := ms[o.H]
+				if m.v.T != "Array" || !m.known || o.V == nil || o.I < 0 || o.I >= len(m.v.A) || len(m.ids) != len(m.v.A) || m.v.A[o.I].T == "Array" {
+					continue
+				}
+				id := m.ids[o.I]
+				if id <= 0 {
+					continue
+				}
+				// the element object itself is changed, through this variant
+				hs[o.H].GetByIndex(o.I).Assign(o.V.ToVariant())
+				elem[id] = *o.V
+				// other holders of the same object (clones, assigned variants, the caller's slice) may
+				// hold it or a copy of it: their slot is no longer asserted
+				for y := 0; y < c20Handles; y++ {
+					if y == o.H {
+						continue
+					}
+					for j, other := range ms[y].ids {
+						if other == id {
+							ms[y].ids[j] = -1
+							if j < len(ms[y].v.A) {
+								out.Probes["element_shared_when_mutated"]++
+							}
+						}
+					}
+				}
+				out.Probes["element_mutated_in_place"]++
+				mutations++
+			case "nest":
+				if o.V == nil || o.I < 1 || o.I > 200 {
+					continue
+				}
+				v := *o.V
+				for d := 0; d < o.I; d++ {
+					v = VArr(v)
+				}
+				hs[o.H] = v.ToVariant()
+				setModel(o.H, v)
+				if o.I > 60 {
+					out.Probes["nested_deeper_than_60"]++
 				}
 			case "clear":
 				hs[o.H].Clear()
@@ -516,9 +645,14 @@ func (propC20) Exec(p *Plan, x *Ctx) *Outcome {
 				st.Str(ms[h].v.T).Int(int64(len(ms[h].v.A))).Int(int64(aliases(h)))
 			}
 			out.ModelStates = append(out.ModelStates, st.Sum())
+			refresh()
 			if !checkAll(i, o) {
 				return
 			}
+		}
+		// the package-level null constant must still be a null
+		if e := FromVariant(variants.Empty); e.T != "Null" {
+			out.Violate("value-model", "C20/variants.Empty-changed", "variants.Empty is %s after the history", e)
 		}
 	}
 	t := run.AddTask(body)
